@@ -1,8 +1,11 @@
 import H4.Slab
+import H4.VarShape
 import H4.Gen.Fn.Putget
+import H4.Gen.Fn.Putget2
+import H4.Gen.Fn.Var
 import H4.Driver.Util
 namespace H4.Driver
-open H4.Slab
+open H4.Slab H4.VarShape
 
 /-! `NCvcmaxcontig` TRANSLATED from the current C text of putget.c (`H4.Gen.Fn.Putget`, gen/c2lean.py) is run on the same arguments as
     the hand-written model `Slab.maxContig`: when the two differ (or the translated code reports undefined behaviour / fuel exhaustion)
@@ -20,10 +23,42 @@ def maxcontig (shape origin edges : List Nat) (recsize len : Nat) (model : Strin
   let n := shape.length
   let s := NCvcmaxcontig (n + 1) recsize false (il shape) n len (il origin) (il edges)
   tag model s.ub s.oof (if !s.done then "noreturn" else if s.retnull then "null" else toString s.ret)
+
+/-! `NC_var_shape` (var.c), `NC_varoffset` and `NCcoordck` (putget.c) TRANSLATED from the current C text (`H4.Gen.Fn.Var`, `H4.Gen.Fn.Putget2`)
+    are run on the arguments of the `varshape` / `varoffset` / `coordck` lines beside the model `H4.VarShape`. -/
+open H4.Gen.Fn.Var H4.Gen.Fn.Putget2
+
+def showCompiled (ret : Int) (shape dsz : List Int) (len : Int) : String :=
+  s!"{ret} {showIntList shape} {showIntList dsz} {len}"
+
+/-- the translated `NC_var_shape`; `len0` is the (arbitrary) previous `var->len`, printed when the function fails -/
+def varshape (dimsizes : List Nat) (ids : List Int) (xszof ft ty : Nat) (model : String) : String :=
+  let n := ids.length
+  let s := NC_var_shape (n + 1) xszof n 0 ids true ft ty false dimsizes.length (List.replicate dimsizes.length 0) (il dimsizes)
+  tag model s.ub s.oof (if s.ret < 0 then "fail" else showCompiled s.ret s.shape_blk s.dsizes_blk s.var_len)
+
+/-- the translated `NC_varoffset` on the `dsizes` the translated `NC_var_shape` stores for this shape -/
+def varoffset (ft : Nat) (shape : List Nat) (xszof begin recsize : Nat) (coords : List Nat) (model : String) : String :=
+  let n := shape.length
+  let v := NC_var_shape (n + 1) xszof n 0 ((List.range n).map Int.ofNat) true ft 4 false n (List.replicate n 0) (il shape)
+  let s := NC_varoffset (n + 1) ft recsize n begin (n == 0) (il shape) v.dsizes_blk (il coords)
+  tag model (s.ub || v.ub) (s.oof || v.oof) (toString s.ret)
+
+/-- the translated `NCcoordck` (no fill I/O is reached on these lines: NC_NOFILL is set whenever the record dimension grows) -/
+def coordck (ft xop ncapi flags : Nat) (vnum : Int) (hnum : Nat) (shape : List Nat) (coords : List Int) (model : String) : String :=
+  let n := shape.length
+  let fuel := n + 2 + (coords.getD 0 0).toNat
+  let s := NCcoordck fuel ft xop hnum flags false (il shape) n vnum 7 4 4 4 coords ncapi 0 true 0 0 0 1 1 1
+  tag model s.ub s.oof s!"{s.ret} {s.vp_numrecs} {s.handle_numrecs} {s.handle_flags}"
 end GenSlab
 
 /-- engine `sd`: `offs <shape> <start> <stride> <count>` => element offset of the k-th value, k = 0..;
-    `maxcontig <shape> <origin> <edges> <recsize> <len>` => index into `edges` returned by `NCvcmaxcontig`, or `null` -/
+    `maxcontig <shape> <origin> <edges> <recsize> <len>` => index into `edges` returned by `NCvcmaxcontig`, or `null`;
+    `varshape <dimsizes> <ids> <xszof> <filetype> <nctype>` => `<rank> <shape> <dsizes> <len>` as `NC_var_shape` leaves them, or `fail`;
+    `varoffset <filetype> <shape> <xszof> <begin> <recsize> <coords>` => the `unsigned long` `NC_varoffset` returns (on the `dsizes`
+    `NC_var_shape` computed for `<shape>`);
+    `coordck <filetype> <x_op> <nc_api> <flags> <vp numrecs> <handle numrecs> <shape> <coords>` => `<TRUE/FALSE> <vp numrecs> <handle numrecs> <flags>`
+    after `NCcoordck` -/
 def stepSd (args : List String) : String :=
   match args with
   | ["offs", sh, st, sd, ct] =>
@@ -36,6 +71,27 @@ def stepSd (args : List String) : String :=
       if shape.isEmpty || origin.length != shape.length || edges.length != shape.length then "bad-op" else
       GenSlab.maxcontig shape origin edges recsize len (GenSlab.showAnswer (maxContig recsize len shape origin edges))
     | _, _, _, _, _ => "bad-op"
+  | ["varshape", ds, is_, xs, fts, tys] =>
+    match natList ds, intList is_, xs.toNat?, fts.toNat?, tys.toNat? with
+    | some dimsizes, some ids, some xszof, some ft, some ty =>
+      let m := match varShapeC dimsizes ids xszof ft ty with
+        | none => "fail"
+        | some c => GenSlab.showCompiled ids.length (GenSlab.il c.shape) (GenSlab.il c.dsizes) c.len
+      GenSlab.varshape dimsizes ids xszof ft ty m
+    | _, _, _, _, _ => "bad-op"
+  | ["varoffset", fts, sh, xs, bs, rs, cs] =>
+    match fts.toNat?, natList sh, xs.toNat?, bs.toNat?, rs.toNat?, natList cs with
+    | some ft, some shape, some xszof, some begin, some recsize, some coords =>
+      if coords.length != shape.length then "bad-op" else
+      GenSlab.varoffset ft shape xszof begin recsize coords (toString (varOffset ft begin recsize xszof shape coords % W))
+    | _, _, _, _, _, _ => "bad-op"
+  | ["coordck", fts, xo, na, fl, vn, hn, sh, cs] =>
+    match fts.toNat?, xo.toNat?, na.toNat?, fl.toNat?, vn.toInt?, hn.toNat?, natList sh, intList cs with
+    | some ft, some xop, some ncapi, some flags, some vnum, some hnum, some shape, some coords =>
+      if shape.isEmpty || coords.length != shape.length then "bad-op" else
+      let m := VarShape.coordck ft (xop == H4.Gen.Ncvar.XDR_ENCODE) (ncapi != 0) flags vnum hnum shape coords
+      GenSlab.coordck ft xop ncapi flags vnum hnum shape coords s!"{if m.ok then 1 else 0} {m.vpNumrecs} {m.hNumrecs} {m.flags}"
+    | _, _, _, _, _, _, _, _ => "bad-op"
   | _ => "bad-op"
 
 end H4.Driver
